@@ -119,6 +119,7 @@ func verifC01HostileLookups(full bool) {
 	verifQuiesce()
 	next := 0
 	seen := map[string]bool{}
+	decisions := 0 // the full product of reply shapes applies to the first reply; later ones use the list
 	for step := 0; step < 8 && !done; step++ {
 		progressed := false
 		for ; next < len(v.sock.sent) && !progressed; next++ {
@@ -132,6 +133,7 @@ func verifC01HostileLookups(full bool) {
 				continue
 			}
 			seen[key] = true
+			decisions++
 			if w.msg.Q == "announce_peer" {
 				switch verifChoice(0, 2) {
 				case 1:
@@ -143,7 +145,7 @@ func verifC01HostileLookups(full bool) {
 				}
 				continue
 			}
-			if m, ok := verifHostileLookupReply(v, w.msg.T, full); ok {
+			if m, ok := verifHostileLookupReply(v, w.msg.T, full && decisions == 1); ok {
 				v.sock.deliver(verifEncode(m, 70), w.addr.(*net.UDPAddr))
 				progressed = true
 			}
